@@ -125,6 +125,14 @@ func (r *Run) n8() int {
 	return r.Rng.Intn(256)
 }
 
+// cnt: a list length - usually below n, now and then just past the sizes at which code switches strategy (8, 16, 32, 64)
+func (r *Run) cnt(n int) int {
+	if r.Rng.Intn(12) == 0 {
+		return r.Pick(9, 12, 17, 33, 65)
+	}
+	return r.Rng.Intn(n)
+}
+
 func (r *Run) blob(max int) []byte {
 	switch r.Rng.Intn(8) {
 	case 0:
@@ -333,7 +341,7 @@ func (r *Run) genOptCode(c uint16, depth int) gnode {
 		var codes []dhcpv6.OptionCode
 		var w []byte
 		seen := map[int]bool{}
-		for k := r.Rng.Intn(6); k > 0; k-- {
+		for k := r.cnt(6); k > 0; k-- {
 			x := r.n16()
 			if seen[x] {
 				continue
@@ -355,7 +363,7 @@ func (r *Run) genOptCode(c uint16, depth int) gnode {
 	case 15, 16:
 		var items [][]byte
 		var w []byte
-		for k := 1 + r.Rng.Intn(3); k > 0; k-- {
+		for k := 1 + r.cnt(3); k > 0; k-- {
 			it := r.blob(20)
 			items = append(items, it)
 			w = append(append(w, w16(len(it))...), it...)
@@ -369,7 +377,7 @@ func (r *Run) genOptCode(c uint16, depth int) gnode {
 		en := r.u32()
 		var subs dhcpv6.Options
 		w := w32(en)
-		for k := r.Rng.Intn(4); k > 0; k-- {
+		for k := r.cnt(4); k > 0; k-- {
 			sc, d := uint16(r.subCode(0)), r.blob(20)
 			subs = append(subs, &dhcpv6.OptionGeneric{OptionCode: dhcpv6.OptionCode(sc), OptionData: d})
 			w = append(w, tlvb(sc, d)...)
@@ -381,7 +389,7 @@ func (r *Run) genOptCode(c uint16, depth int) gnode {
 	case 23, 88:
 		var ips []net.IP
 		var w []byte
-		for k := r.Rng.Intn(4); k > 0; k-- {
+		for k := r.cnt(4); k > 0; k-- {
 			a := r.Addr16()
 			ips = append(ips, net.IP(a))
 			w = append(w, a...)
@@ -422,7 +430,7 @@ func (r *Run) genOptCode(c uint16, depth int) gnode {
 	case 56:
 		var subs dhcpv6.Options
 		var w []byte
-		for k := r.Rng.Intn(4); k > 0; k-- {
+		for k := r.cnt(4); k > 0; k-- {
 			switch r.Rng.Intn(4) {
 			case 0:
 				a := r.Addr16()
@@ -451,7 +459,7 @@ func (r *Run) genOptCode(c uint16, depth int) gnode {
 	case 60:
 		var ps []string
 		var w []byte
-		for k := r.Rng.Intn(4); k > 0; k-- {
+		for k := r.cnt(4); k > 0; k-- {
 			p := r.blob(20)
 			ps = append(ps, string(p))
 			w = append(append(w, w16(len(p))...), p...)
@@ -460,7 +468,7 @@ func (r *Run) genOptCode(c uint16, depth int) gnode {
 	case 61:
 		var as []iana.Arch
 		var w []byte
-		for k := 1 + r.Rng.Intn(3); k > 0; k-- {
+		for k := 1 + r.cnt(3); k > 0; k-- {
 			x := r.n16()
 			as = append(as, iana.Arch(x))
 			w = append(w, w16(x)...)
@@ -1082,6 +1090,14 @@ func oracleC06v6k(r *Run, b []byte, key string) {
 	if !bytes.Equal(b1, b2) {
 		r.Fail("v6-bytes-unstable", trunc(cs, 3000), "second encoding differs from the first")
 	}
+	// both values come out of the decoder, so they must also print alike (a field the first decoding left unset -
+	// a nil mask, a nil address - and the second filled in is a difference in meaning the field dump may not show)
+	func() {
+		defer func() { _ = recover() }()
+		if s1, s2 := m1.Summary(), m2.Summary(); s1 != s2 {
+			r.Fail("v6-meaning-changed", trunc(cs, 3000), "the decoded message and the re-decoded message print differently: "+firstDiff(s1, s2))
+		}
+	}()
 }
 
 func oracleC06v4(r *Run, b []byte) {
@@ -1170,6 +1186,30 @@ func genC06(r *Run) {
 		for _, b := range nameFieldShapes(h) {
 			oracleC06v4(r, b)
 			r.Add(eV4Reenc, b)
+		}
+	}
+	// every known option type with each octet of its value in turn set to the values where ranges end (0, 1, 32, 33,
+	// 127..129, 255): accepted or not, what is accepted must survive re-encoding
+	for _, c := range knownV6Codes {
+		for k := 0; k < r.N(2, 20); k++ {
+			v := r.genOptCode(c, 1).wire
+			if len(v) > 200 {
+				continue
+			}
+			for pos := 0; pos < len(v) && pos < 48; pos++ {
+				for _, x := range []byte{0, 1, 32, 33, 127, 128, 129, 255} {
+					m := append([]byte{}, v...)
+					if m[pos] == x {
+						continue
+					}
+					m[pos] = x
+					b := append([]byte{1, 1, 2, 3}, tlvb(c, m)...)
+					oracleC06v6(r, b)
+					if (pos+int(x)+k)%23 == 0 {
+						r.Add(eV6Reenc, b)
+					}
+				}
+			}
 		}
 	}
 	// v6: valid, mutated and out-of-range inputs
